@@ -1,6 +1,7 @@
 import Frp.Lemmas.Base64
 import Frp.Lemmas.Udp
 import Frp.Lemmas.Sudp
+import Frp.Lemmas.UdpSrv
 /-
   C03 — UDP tunnels preserve datagram payloads, boundaries and reply addressing.
 
@@ -11,7 +12,10 @@ import Frp.Lemmas.Sudp
           Frp/Model/Sudp.lean   (client/visitor/sudp.go: dispatcher / worker / ForwardUserConn of the
                                  sudp visitor as a labelled transition system; one visitor connection =
                                  one work connection = one Forwarder generation).
-  Lemmas: Frp/Lemmas/Base64.lean, Frp/Lemmas/Udp.lean, Frp/Lemmas/Sudp.lean.
+          Frp/Model/UdpSrv.lean (server/proxy/udp.go Run: the work-connection loop, one reader and one
+                                 sender goroutine per work connection, sendCh / readCh / checkCloseCh
+                                 shared by all work connections, per-connection cancel).
+  Lemmas: Frp/Lemmas/Base64.lean, Frp/Lemmas/Udp.lean, Frp/Lemmas/Sudp.lean, Frp/Lemmas/UdpSrv.lean.
 
   Every statement about the forwarding machine is about `run (init …) ls` for an arbitrary label
   list `ls`, i.e. for every interleaving of user datagrams (any number of source addresses),
@@ -558,6 +562,239 @@ theorem sudp_model_safe {s : Sudp.St} (h : SReachable s) (x : View) :
     (s.wire.map Prod.snd).count x ≤ s.sentV.count x ∧
     (s.userLog.map uview).count x ≤ (s.inLog.map Prod.snd).count x :=
   ⟨sudp_no_dup_across_connections h x, sudp_reply_no_dup h x⟩
+
+/-! ## 6. server side of a udp proxy: replacement of the work connection
+
+  `UdpSrv.run (UdpSrv.init …) ls` for an arbitrary label list `ls`: every interleaving of user datagrams,
+  the work-connection loop of `UDPProxy.Run` (obtaining a connection succeeds or fails, wake-up, cancel),
+  reader failures at any point (peer closed / 60 s silence / bad frame), sender writes that succeed or fail,
+  sender exits, inbound packets (with or without address, decodable or not) and pings — i.e. any number of
+  replacements of the work connection at any point, idle or under traffic. -/
+
+def VReachable (s : UdpSrv.St) : Prop := ∃ bs cap ls, s = UdpSrv.run (UdpSrv.init bs cap) ls
+
+theorem srv_reachable_inv {s : UdpSrv.St} (h : VReachable s) : UdpSrv.Inv s := by
+  obtain ⟨bs, cap, ls, rfl⟩ := h
+  exact UdpSrv.inv_run _ (UdpSrv.inv_init bs cap) ls
+
+/-- **conservation, user → tunnel**: every datagram that arrived at the public socket is, at any time,
+    exactly one of: queued in `sendCh`, written on exactly one work connection, or dropped at a listed
+    site — as multisets over all work connections together. -/
+theorem srv_conservation_up {s : UdpSrv.St} (h : VReachable s) (x : View) :
+    s.sentV.count x =
+      (s.sendCh.map view).count x + (s.wire.map Prod.snd).count x + (s.dropUp.map Prod.snd).count x :=
+  (srv_reachable_inv h).up x
+
+/-- **conservation, tunnel → user** -/
+theorem srv_conservation_down {s : UdpSrv.St} (h : VReachable s) (x : View) :
+    (s.inLog.map Prod.snd).count x =
+      (s.readCh.map view).count x + (s.userLog.map uview).count x + (s.dropDown.map Prod.snd).count x :=
+  (srv_reachable_inv h).down x
+
+theorem srv_sentV_eq {s : UdpSrv.St} (h : VReachable s) :
+    s.sentV = s.sent.map (fun e => (some e.1, some (rd s.bs e.2))) :=
+  (srv_reachable_inv h).sentEq
+
+/-- **no duplication across replacement**: over all work connections together a payload is written at
+    most as many times as that user address sent it. -/
+theorem srv_no_dup_across_connections {s : UdpSrv.St} (h : VReachable s) (x : View) :
+    (s.wire.map Prod.snd).count x ≤ s.sentV.count x := by
+  have := srv_conservation_up h x; omega
+
+/-- **no corruption / forgery**: whatever is written on work connection `g` has exactly the payload (cut
+    to the packet size) of one datagram some user sent, tagged with that user's address, and `g` is a
+    connection the proxy has obtained (1 ≤ g ≤ number of connections so far). -/
+theorem srv_wire_payload_sent {s : UdpSrv.St} (h : VReachable s) {g : Nat} {a : Option Addr}
+    {b : Option Str} (hm : (g, (a, b)) ∈ s.wire) :
+    ∃ ua p, (ua, p) ∈ s.sent ∧ a = some ua ∧ b = some (rd s.bs p) ∧ 1 ≤ g ∧ g ≤ s.gen := by
+  have hc := srv_conservation_up h (a, b)
+  have hpos : 0 < (s.wire.map Prod.snd).count (a, b) :=
+    List.count_pos_iff.2 (List.mem_map.2 ⟨(g, (a, b)), hm, rfl⟩)
+  have hs : 0 < s.sentV.count (a, b) := by omega
+  have hmem := List.count_pos_iff.1 hs
+  rw [srv_sentV_eq h] at hmem
+  obtain ⟨⟨ua, p⟩, hin, heq⟩ := List.mem_map.1 hmem
+  simp only [Prod.mk.injEq] at heq
+  have hg := (srv_reachable_inv h).wireGen _ hm
+  exact ⟨ua, p, hin, heq.1.symm, heq.2.symm, hg.1, hg.2⟩
+
+/-- **reply routing on the public socket**: a datagram written to user address `a` with payload `q` is one
+    packet read from some work connection that carried exactly that address and payload; in particular
+    a packet without address, or with an undecodable content, reaches nobody. -/
+theorem srv_reply_routing {s : UdpSrv.St} (h : VReachable s) {a : Addr} {q : Str}
+    (hm : (a, q) ∈ s.userLog) : ∃ g, (g, (some a, some q)) ∈ s.inLog ∧ 1 ≤ g ∧ g ≤ s.gen := by
+  have hc := srv_conservation_down h (uview (a, q))
+  have hpos : 0 < (s.userLog.map uview).count (uview (a, q)) :=
+    List.count_pos_iff.2 (List.mem_map.2 ⟨(a, q), hm, rfl⟩)
+  have hs : 0 < (s.inLog.map Prod.snd).count (uview (a, q)) := by omega
+  obtain ⟨⟨g, v⟩, hin, heq⟩ := List.mem_map.1 (List.count_pos_iff.1 hs)
+  simp only at heq
+  subst heq
+  have hg := (srv_reachable_inv h).inGen _ hin
+  exact ⟨g, hin, hg.1, hg.2⟩
+
+theorem srv_reply_no_dup {s : UdpSrv.St} (h : VReachable s) (x : View) :
+    (s.userLog.map uview).count x ≤ (s.inLog.map Prod.snd).count x := by
+  have := srv_conservation_down h x; omega
+
+/-- the only upstream drop reasons: full queue, failed write on a work connection -/
+theorem srv_drop_reasons {s : UdpSrv.St} (h : VReachable s) :
+    ∀ e ∈ s.dropUp, e.1 = UdpSrv.SDrop.sendFull ∨ e.1 = UdpSrv.SDrop.connDown := by
+  intro e he
+  have := (srv_reachable_inv h).dropReason e he
+  cases hd : e.1 <;> rw [hd] at this <;> simp_all [UdpSrv.okUp]
+
+/-- … and each with its cause, per step from any state: `sendFull` only with `cap` messages queued
+    (overload); `connDown` only by a sender whose write failed: the transport refused it (`ok = false`, the
+    connection is broken) or the connection had already been closed on the server side. -/
+theorem srv_drop_causes (s : UdpSrv.St) (l : UdpSrv.Label) (d : UdpSrv.SDrop) (x : View)
+    (hgt : s.dropUp.count (d, x) < (UdpSrv.step s l).dropUp.count (d, x)) :
+    (d = .sendFull ∧ s.cap ≤ s.sendCh.length ∧ ∃ a p, l = .userSend a p) ∨
+    (d = .connDown ∧ ∃ g ok, l = .senderTake g ok ∧ g ∈ s.senders ∧ (ok = false ∨ g ∈ s.dead)) :=
+  UdpSrv.drop_causes s l d x hgt
+
+/-- … and a connection that is closed on the server side while its sender still runs **is being
+    re-established**: it is not the current one, or the loop is between two connections, or the reader of
+    the current connection has already failed and asks for the replacement. -/
+theorem srv_dead_conn_is_being_replaced {s : UdpSrv.St} (h : VReachable s) {g : Nat}
+    (hs : g ∈ s.senders) (hd : g ∈ s.dead) : g ≠ s.gen ∨ s.loop ≠ .watch ∨ s.readers = [] :=
+  UdpSrv.dead_conn_is_being_replaced (srv_reachable_inv h) hs hd
+
+theorem srv_lossless_if_no_drop {s : UdpSrv.St} (h : VReachable s) (hu : s.dropUp = []) (x : View) :
+    s.sentV.count x = (s.sendCh.map view).count x + (s.wire.map Prod.snd).count x := by
+  have h1 := srv_conservation_up h x
+  rw [hu] at h1
+  simpa only [List.map_nil, List.count_nil, Nat.add_zero] using h1
+
+/-- **one reader**: a reader inside its read loop belongs to the current connection, it is the only one,
+    and nobody waits on `checkCloseCh`; between two connections there is none -/
+theorem srv_one_reader {s : UdpSrv.St} (h : VReachable s) {g : Nat} (hg : g ∈ s.readers) :
+    s.loop = .watch ∧ g = s.gen ∧ s.readers = [s.gen] ∧ s.signal = [] := by
+  have := UdpSrv.reader_cur (srv_reachable_inv h) hg
+  exact ⟨this.1, this.2.1, this.2.2.2.1, this.2.2.2.2⟩
+
+/-- **no sender stays parked on `sendCh` behind a replaced connection** (all interleavings): a sender that
+    is alive and is not the sender of the current connection under a watching loop has had its context
+    cancelled — `case <-ctx.Done()` is ready, it leaves without needing a datagram. -/
+theorem srv_stale_sender_cancelled {s : UdpSrv.St} (h : VReachable s) {g : Nat} (hg : g ∈ s.senders)
+    (hstale : g ≠ s.gen ∨ s.loop = .get) : g ∈ s.cancelled := by
+  obtain ⟨_, _, h3 | h3⟩ := (srv_reachable_inv h).sendersOK g hg
+  · exact h3
+  · rcases hstale with hs | hs
+    · exact absurd h3.1 hs
+    · exact absurd hs h3.2
+
+/-- quiescing = the cancelled senders take their `ctx.Done()` branch; it needs no other event and touches
+    nothing but the set of senders -/
+theorem srv_quiesce_eq (s : UdpSrv.St) :
+    UdpSrv.quiesce s = { s with senders := s.senders.filter (fun g => decide (g ∉ s.cancelled)) } :=
+  UdpSrv.quiesce_eq s
+
+/-- **at most one live sender consumes `sendCh` once the previous ones have been woken**, and it is the
+    sender of the current work connection -/
+theorem srv_quiescent_one_sender {s : UdpSrv.St} (h : VReachable s) :
+    (UdpSrv.quiesce s).senders.length ≤ 1 ∧
+    ∀ g ∈ (UdpSrv.quiesce s).senders, g = s.gen ∧ s.loop ≠ .get :=
+  ⟨UdpSrv.quiescent_one_sender (srv_reachable_inv h),
+   fun _ hg => let r := UdpSrv.quiescent_senders (srv_reachable_inv h) hg; ⟨r.1, r.2.1⟩⟩
+
+/-- **a datagram taken from `sendCh` goes to the CURRENT work connection**: from a quiescent state,
+    whichever sender `g` performs the next take, with whatever outcome, the wire log grows (if at all)
+    by an entry on connection `gen` -/
+theorem srv_taken_on_current {s : UdpSrv.St} (h : VReachable s) (g : Nat) (ok : Bool) :
+    (UdpSrv.step (UdpSrv.quiesce s) (.senderTake g ok)).wire = s.wire ∨
+    ∃ v, (UdpSrv.step (UdpSrv.quiesce s) (.senderTake g ok)).wire = s.wire ++ [(s.gen, v)] :=
+  UdpSrv.taken_on_current (srv_reachable_inv h) g ok
+
+/-- **at light load they arrive** (connection up): written on the current connection, nothing dropped -/
+theorem srv_next_datagram_delivered (s : UdpSrv.St) (a : Addr) (p : Str) (hb : isBytes p = true)
+    (hs : s.gen ∈ s.senders) (hd : s.gen ∉ s.dead) (hq : s.sendCh = []) (hcap : 0 < s.cap) :
+    let s' := UdpSrv.run s [.userSend a p, .senderTake s.gen true]
+    s'.wire = s.wire ++ [(s.gen, (some a, some (rd s.bs p)))] ∧ s'.dropUp = s.dropUp ∧ s'.sendCh = [] ∧
+      s'.senders = s.senders ∧ s'.dead = s.dead ∧ s'.gen = s.gen :=
+  UdpSrv.next_datagram_delivered s a p hb hs hd hq hcap
+
+/-- one replacement of an idle work connection leads from a healthy state to a healthy state on the next
+    connection, with nothing written and nothing dropped -/
+theorem srv_replace_idle_healthy {s : UdpSrv.St} (h : UdpSrv.Healthy s) :
+    UdpSrv.Healthy (UdpSrv.run s (UdpSrv.replaceIdle s.gen)) ∧
+      (UdpSrv.run s (UdpSrv.replaceIdle s.gen)).gen = s.gen + 1 ∧
+      (UdpSrv.run s (UdpSrv.replaceIdle s.gen)).wire = s.wire ∧
+      (UdpSrv.run s (UdpSrv.replaceIdle s.gen)).dropUp = s.dropUp := by
+  have := UdpSrv.replaceIdle_healthy h
+  exact ⟨this.1, this.2.1, this.2.2.1, this.2.2.2.1⟩
+
+/-- **after ANY number `k` of replacements of the work connection while idle, the next datagram arrives**:
+    it is written on connection `gen + k` and nothing is dropped (the first datagram after `k` replacements is
+    not lost, for every `k`). -/
+theorem srv_delivered_after_replacements (k : Nat) {s : UdpSrv.St} (h : UdpSrv.Healthy s) (a : Addr)
+    (p : Str) (hb : isBytes p = true) (hcap : 0 < s.cap) :
+    let s' := UdpSrv.run (UdpSrv.replaceIdleN k s) [.userSend a p, .senderTake (s.gen + k) true]
+    s'.wire = s.wire ++ [(s.gen + k, (some a, some (rd s.bs p)))] ∧ s'.dropUp = s.dropUp :=
+  UdpSrv.delivered_after_replacements k h a p hb hcap
+
+/-! ### non-vacuity -/
+
+/-- the proxy obtains connection 1: a healthy state that is reachable -/
+def srvUp : UdpSrv.St := UdpSrv.run (UdpSrv.init 1500 1024) [.loopGet true]
+
+example : VReachable srvUp := ⟨1500, 1024, [.loopGet true], rfl⟩
+example : UdpSrv.Healthy srvUp := by
+  refine ⟨rfl, rfl, rfl, rfl, ?_, ?_, rfl⟩ <;> decide +kernel
+
+/-- "one" on connection 1; the connection is replaced twice while idle; "two" goes to connection 3 -/
+def srvDemo : List UdpSrv.Label :=
+  [.loopGet true, .userSend ua [1], .senderTake 1 true] ++ UdpSrv.replaceIdle 1 ++ UdpSrv.replaceIdle 2 ++
+  [.userSend ua [2], .senderTake 3 true]
+
+example : (UdpSrv.run (UdpSrv.init 1500 1024) srvDemo).wire
+    = [(1, (some ua, some [1])), (3, (some ua, some [2]))] := by decide +kernel
+example : (UdpSrv.run (UdpSrv.init 1500 1024) srvDemo).senders = [3] := by decide +kernel
+/-- the new connection is up before the old sender has woken: two senders are alive, the old one is
+    cancelled, and after quiescing only the current one is left -/
+example : ((UdpSrv.run (UdpSrv.init 1500 1024)
+      [.loopGet true, .readerDie 1, .loopWake, .loopCancel, .loopGet true]).senders,
+    (UdpSrv.quiesce (UdpSrv.run (UdpSrv.init 1500 1024)
+      [.loopGet true, .readerDie 1, .loopWake, .loopCancel, .loopGet true])).senders)
+    = ([1, 2], [2]) := by decide +kernel
+/-- replacement under traffic: the reader has failed, the old sender still takes a datagram and loses it
+    (the only way to lose one at light load) -/
+example : ((UdpSrv.run (UdpSrv.init 1500 1024)
+      [.loopGet true, .readerDie 1, .userSend ua [9], .senderTake 1 true]).dropUp.map Prod.fst)
+    = [UdpSrv.SDrop.connDown] := by decide +kernel
+/-- a packet without address and a packet with undecodable content reach nobody; the next reply does -/
+example : ((UdpSrv.run (UdpSrv.init 1500 1024)
+      [.loopGet true, .connRecv 1 (packetOf [7] none none), .sback,
+       .connRecv 1 { content := [33], laddr := none, raddr := some ua }, .sback,
+       .connRecv 1 (packetOf [8] none (some ub)), .sback]).userLog,
+    (UdpSrv.run (UdpSrv.init 1500 1024)
+      [.loopGet true, .connRecv 1 (packetOf [7] none none), .sback,
+       .connRecv 1 { content := [33], laddr := none, raddr := some ua }, .sback,
+       .connRecv 1 (packetOf [8] none (some ub)), .sback]).dropDown.map Prod.fst)
+    = ([(ub, [8])], [UdpSrv.SDrop.nilAddr, UdpSrv.SDrop.decodeErr]) := by decide +kernel
+
+/-- server-proxy run at light load with scripted loss of the work connection.  `must` = datagrams sent while
+    a healthy work connection is up and nothing else is in flight (they have to arrive), `may` = datagrams
+    that were in flight when the work connection was taken away (each may arrive once, on the old or on the
+    new connection, or be lost), `W` = what the far side received over all work connections together,
+    `Rs i` / `Us i` = replies sent for / received by user `i` (packets without address or with undecodable
+    content are in no `Rs i`), `bad` = a packet carried a wrong address tag. -/
+def HoldsOnSrv {α} [DecidableEq α] (must may W : List α) (Rs Us : List (List α)) (bad : Bool) : Prop :=
+  MsSub W (must ++ may) ∧ MsSub must W ∧ Us.length = Rs.length ∧ (∀ p ∈ Us.zip Rs, MsEq p.1 p.2) ∧ bad = false
+
+def holdsOnSrv {α} [DecidableEq α] (must may W : List α) (Rs Us : List (List α)) (bad : Bool) : Bool :=
+  msSub W (must ++ may) && msSub must W && Us.length == Rs.length && (Us.zip Rs).all (fun p => msEq p.1 p.2) && !bad
+
+theorem holdsOnSrv_sound {α} [DecidableEq α] (must may W : List α) (Rs Us : List (List α)) (bad : Bool) :
+    holdsOnSrv must may W Rs Us bad = true ↔ HoldsOnSrv must may W Rs Us bad := by
+  simp only [holdsOnSrv, HoldsOnSrv, Bool.and_eq_true, msSub_sound, msEq_sound, beq_iff_eq, List.all_eq_true,
+    Bool.not_eq_true', and_assoc]
+
+/-- the model's own logs satisfy the safety half of that predicate in every reachable state -/
+theorem srv_model_safe {s : UdpSrv.St} (h : VReachable s) (x : View) :
+    (s.wire.map Prod.snd).count x ≤ s.sentV.count x ∧
+    (s.userLog.map uview).count x ≤ (s.inLog.map Prod.snd).count x :=
+  ⟨srv_no_dup_across_connections h x, srv_reply_no_dup h x⟩
 
 end C03
 end Frp
